@@ -120,4 +120,26 @@ def check_forwarding(ctx, names, rule='R-FWD/parameter-forwarded',
                        f'it: {t.name} falls back to its default '
                        f'`{p}={unparse(dflt[p])[:30]}`, whatever the '
                        'caller was asked to use')
+    # workers started with Process(target=f, kwargs={...}): the same
+    # obligation for the literal kwargs
+    from . import workers as W
+    for site in W.find_spawn_sites(db, in_scope):
+        fi = site.fi
+        if fi.module.short.startswith(('gpu_utils', 'corr.')):
+            continue
+        if site.target is None or site.kwargs is None:
+            continue
+        fparams = (set(fi.params) - {'self', 'cls'}) & set(names)
+        dflt = _defaults(site.target)
+        for p in [q for q in dflt if q in fparams]:
+            n += 1
+            bound = p in site.kwargs
+            ctx.touch(fi)
+            ctx.ob(rule, f'{fi.qual}=>{site.target.qual}:{p}',
+                   fi.loc(site.call), bound,
+                   f'`{p}` is handed to the worker {site.target.name}'
+                   if bound else
+                   f'{fi.name} holds `{p}` but starts the worker '
+                   f'{site.target.name} without it: the worker falls back '
+                   f'to its default `{p}={unparse(dflt[p])[:30]}`')
     return n
